@@ -84,7 +84,7 @@ func probeChild(in string) error {
 	for i := range out {
 		out[i] = "hang"
 	}
-	deadline := time.After(3 * time.Second)
+	deadline := time.After(1500 * time.Millisecond)
 	for n := 0; n < len(reqs); n++ {
 		select {
 		case r := <-ch:
